@@ -412,6 +412,69 @@ def state_lookup_unit(prog):
     return ixx.unit.path
 
 
+_DIAG_CACHE = {}
+
+
+def diagnostic_offsets(prog):
+    """Byte offsets of interface-record fields that exist for diagnostics only: every read of such a field in the core
+    is an argument of a logging call or part of its own update (`f++`, `f += n`, `if (x > f) f = x` is NOT accepted - that
+    reads it in a condition).  Writes to them are not behaviour: nothing transmitted or decided can depend on them."""
+    key = id(prog)
+    if key in _DIAG_CACHE:
+        return _DIAG_CACHE[key]
+    ix = prog.unit(BLOCK_UNIT)
+    srec = ix.parse_type('lltd_iface_state').rec
+    names = set(f[0] for f in srec.fields) - set(n for n, _t in facts.ROLE_TABLES['lltd_iface_state'])
+    bad = set()
+
+    def visit(n, in_log, self_update):
+        if not isinstance(n, dict):
+            return
+        k = n.get('kind')
+        if k == 'CallExpr' and n.get('inner'):
+            c = n['inner'][0]
+            while c.get('kind') in ('ImplicitCastExpr', 'ParenExpr'):
+                c = c['inner'][0]
+            nm = c.get('referencedDecl', {}).get('name', '') if c.get('kind') == 'DeclRefExpr' else ''
+            for a in n['inner'][1:]:
+                visit(a, in_log or nm.startswith('lltd_port_log_'), None)
+            return
+        if k in ('UnaryOperator',) and n.get('opcode') in ('++', '--') and n.get('inner'):
+            t = n['inner'][0]
+            while t.get('kind') == 'ParenExpr':
+                t = t['inner'][0]
+            if t.get('kind') == 'MemberExpr' and t.get('name') in names:
+                for c in t.get('inner', []):
+                    visit(c, in_log, None)
+                return
+        if k in ('BinaryOperator', 'CompoundAssignOperator') and n.get('opcode', '').endswith('=') and n.get('opcode') not in ('==', '!=', '<=', '>=') and n.get('inner'):
+            lhs = n['inner'][0]
+            while lhs.get('kind') == 'ParenExpr':
+                lhs = lhs['inner'][0]
+            if lhs.get('kind') == 'MemberExpr' and lhs.get('name') in names:
+                for c in lhs.get('inner', []):
+                    visit(c, in_log, None)
+                visit(n['inner'][1], in_log, lhs.get('name'))      # `f = f + 1` may read f itself
+                return
+        if k == 'MemberExpr' and n.get('name') in names:
+            if not in_log and self_update != n.get('name'):
+                rp = ix.field_parent.get(n.get('referencedMemberDecl'))
+                if rp is None or rp[0] is srec or rp[0].name.replace('struct ', '') == 'lltd_iface_state':
+                    bad.add(n.get('name'))
+        for c in n.get('inner', []) or []:
+            visit(c, in_log, self_update)
+    for uix in prog.index.values():
+        for fname, fn in uix.functions.items():
+            visit(fn, False, None)
+    offs = set()
+    for f in srec.fields:
+        if f[0] in names and f[0] not in bad:
+            for b in range(ix.sizeof(ix.parse_type(f[2]))):
+                offs.add(f[1] + b)
+    _DIAG_CACHE[key] = offs
+    return offs
+
+
 def request_alloc(oid):
     """A heap object allocated while the frame is handled (not one of the harness's entry placeholders), whatever
     function the allocation sits in."""
